@@ -38,7 +38,7 @@ CONSTS = {
     ),
     "thorough": (
         dict(NSyms=3, MaxLen=3, MaxUses=2, MaxGuards=1, WithODE="TRUE", MaxFeat=5, MaxAdm=5, MinEmit=1, MaxRmSet=2, SampleMod=8, Thin=1, FullDepth=0),
-        dict(NSyms=4, MaxLen=8, MaxUses=2, MaxGuards=3, WithODE="TRUE", MaxFeat=12, MaxAdm=5, MinEmit=6, MaxRmSet=1, SampleMod=6, Thin=96, FullDepth=1),
+        dict(NSyms=4, MaxLen=8, MaxUses=2, MaxGuards=3, WithODE="TRUE", MaxFeat=12, MaxAdm=5, MinEmit=6, MaxRmSet=1, SampleMod=12, Thin=64, FullDepth=1),
     ),
 }
 INVARIANTS = ["T0_Machine", "T1_FullExpr", "T2_DepSound", "T3_DepBounds", "T4_Remove", "T4b_FixedRemove", "T5_Reassign", "T6_Subs", "T7_Used", "EmitCase"]
@@ -533,7 +533,7 @@ def main(tier: str, seed: int) -> int:
         cases_emitted_by_tlc=len(ex) + len(sim),
         cases_replayed=len(work),
         exhaustive_cases=len(ex[: budget[0]]),
-        simulated_cases=len(sim[: budget[1]]),
+        subtree_cases=len(sim[: budget[1]]),
         evaluations=tot["calls"],
         distinct_nontrivial=nontrivial,
         traces_validated_against_impl=len(work),
